@@ -530,7 +530,9 @@ def fr7(ctx):
         okk = False
         for (te, fe) in tedges:
             late = [e for e in ok_exits if e['point'] in b.reach([te[1]])]
-            c_ok = all(any(b.dominates(p, e['point']) for p in resets_c) and any(b.dominates(p, e['point']) for p in resets_b) for e in late) and late
+            # every path from the `next_block() == true` edge to a successful return passes both resets
+            c_ok = bool(late) and bool(resets_c) and bool(resets_b) and \
+                not any(e['point'] in b.reach([te[1]], avoid=resets_c) for e in late) and not any(e['point'] in b.reach([te[1]], avoid=resets_b) for e in late)
             f_exits = [e for e in b.exits() if e['point'] in b.reach([fe[1]])]
             f_ok = bool(f_exits) and all(e['kind'] == 'err' and e.get('variant') == 'NotAvailable' for e in f_exits)
             if c_ok and f_ok:
